@@ -312,6 +312,18 @@ def process_fn(src: str, src_file: str, it: rustscan.Item, dirs: List[Directive]
             raise Undecided('receiver-mut: unexpected receiver %r in %s' % (first, info.fn))
         edits.append(Edit(st[j].start, st[end - 1].end, '&mut self', 'real', 'D7'))
         drops.append('D7 receiver `%s` -> `&mut self`' % re.sub(r'\s+', ' ', first))
+    # --- D7 (parameter form): `name: &T` -> `name: &mut T`
+    for d in dirs:
+        if d.kind == 'param-mut':
+            nm = d.arg.strip()
+            hit = None
+            for i in range(0, body_open_i - 2):
+                if st[i].kind == 'ident' and st[i].text == nm and st[i + 1].text == ':' and st[i + 2].text == '&' and st[i + 3].text != 'mut':
+                    hit = i + 2
+            if hit is None:
+                raise Undecided('lost anchor: parameter %s: &.. of %s' % (nm, info.fn))
+            edits.append(Edit(st[hit].start, st[hit].end, '&mut ', 'real', 'D7'))
+            drops.append('D7 parameter `%s: &..` -> `&mut ..`' % nm)
     # --- return value name
     ret = next((d.arg for d in dirs if d.kind == 'ret'), None)
     if ret:
@@ -522,6 +534,20 @@ def process_fn(src: str, src_file: str, it: rustscan.Item, dirs: List[Directive]
             a = st[body_open_i].end + m0.start()
             edits.append(Edit(a, a + len(m0.group(0)), m0.expand(' '.join(x.strip() for x in d.payload)), 'subst:%s:%d' % (info.fn, d.line), 'D5'))
             drops.append('D5 assumed expression `%s`' % m0.group(0))
+    # --- D7 (expression form): `&place` -> `&mut place` where the code reaches interior-mutable data through a shared
+    #     borrow (same sequential-scope assumption as the receiver rewrite; nothing is assumed about the expression)
+    for d in dirs:
+        if d.kind == 'mutref':
+            pat = d.arg.strip('"')
+            if not pat.startswith('&') or pat.startswith('&mut'):
+                raise Undecided('mutref: pattern must start with `&`')
+            body_txt = src[st[body_open_i].end:st[body_close_i].start]
+            k = body_txt.find(pat)
+            if k < 0 or body_txt.find(pat, k + 1) >= 0:
+                raise Undecided('lost anchor: expression %r in %s (%s)' % (pat, info.fn, 'absent' if k < 0 else 'ambiguous'))
+            a = st[body_open_i].end + k
+            edits.append(Edit(a, a + 1, '&mut ', 'real', 'D7'))
+            drops.append('D7 `%s` -> `&mut %s`' % (pat, pat[1:]))
     # --- D6 closure header annotation: `|x| body` -> `<header from the contract> { body }`
     #     (parameter types, named return value, ensures clause and braces; the body tokens are unchanged)
     for d in dirs:
